@@ -11,7 +11,7 @@ Classes == {"identifier", "field", "unexported", "method", "nilderef", "nilderef
             "len-kind", "ints-range", "pipe-nonfunc", "argcount-piped-jetfunc", "argcount-piped"}
 Positions == {"print", "let", "set", "ifcond", "iflet", "rangecoll", "yieldarg", "yieldctx", "ycontentctx", "includectx", "return", "execctx", "yieldnoval", "yieldnoval0"}
 Places == {"main", "layout"}
-PosKinds == {"include", "ycont", "ybody", "blockdef", "range", "iflet", "tryin", "exec", "incif", "includectx"}
+PosKinds == {"include", "ycont", "ybody", "blockdef", "range", "iflet", "tryin", "exec", "incif", "includectx", "execext", "includeext"}
 
 Failing(pos, class) ==
   LET e == Ex("err", class) IN
@@ -30,7 +30,18 @@ Failing(pos, class) ==
     [] pos = "yieldnoval0" -> <<YieldS("ff", "b0", <<Par("zz", NoE)>>, NoE)>>       \* ... for a block without parameters
     [] pos = "execctx"    -> <<ExecLetCx("ff", "r", "other", e)>>
 
+\* a yield of a block that is defined nowhere the template can see is an error - also after another template of
+\* the same Set, which imports the same library AND the one that does define the block, has been loaded and run
+MkAfterImports ==
+  LET la    == Tm("la", "", <<>>, <<BlockS("lad", "ba", <<>>, NoE, <<T("BA")>>)>>)
+      lb    == Tm("lb", "", <<>>, <<BlockS("lbd", "bb", <<>>, NoE, <<T("BB")>>)>>)
+      both  == Tm("main", "", <<"la", "lb">>, <<T("m0"), YieldS("my", "bb", <<>>, NoE), T("m1")>>)
+      other == Tm("after", "", <<"la">>, <<T("o0"), YieldS("oa", "ba", <<>>, NoE), YieldS("oy", "bb", <<>>, NoE), T("o1")>>)
+  IN [ts |-> <<both, other, la, lb>>, globals |-> NoVarsMap,
+      runs |-> <<RunR("main", NoVarsMap, "D"), RunR("after", NoVarsMap, "D"), RunR("la", NoVarsMap, "D")>>, tag |-> "afterimports"]
+
 MkC(par) ==
+  IF par[4] = "afterimports" THEN MkAfterImports ELSE
   LET path == par[1]  class == par[2]  pos == par[3]  place == par[4]  fill == par[5]
       filler == [i \in 1..fill |-> T("fill" \o ToString(i))]
       focal  == filler \o <<T("f0")>> \o Failing(pos, class) \o <<T("f1")>>
@@ -58,4 +69,5 @@ cParams == {p \in PathsUpTo(PosKinds, Depth) \X Classes \X Positions \X Places \
               /\ (p[2] \in {"range-invalid", "range-nilliteral"} => p[3] = "rangecoll")   \* nil is only an error as a range subject
               /\ (p[2] = "calltarget-nil-noargs" => p[3] \in {"print", "let", "ifcond", "rangecoll"})
               /\ (p[4] = "layout" => p[3] \in {"print", "let", "yieldarg"})}
+           \cup {<< <<>>, "identifier", "print", "afterimports", 0 >>}
 =============================================================================
